@@ -48,8 +48,8 @@ Print Assumptions C15_after_init.
 (* the four statements together, in the form the observer of the correspondence run checks them:
    for ALL fleets, initial databases and command sequences the model's own trace passes the observer
    [holdsb] (= [Holds], Drv.Startup.holdsb_spec); hence a case on which implementation and model agree holds. *)
-Theorem C15_model_trace_holds : forall fans db0 cmds,
-  holdsb (mkCase fans db0 cmds (model_steps (fleet_of fans) (db_of db0) cmds)) = true.
+Theorem C15_model_trace_holds : forall fans db0 cmds x,
+  holdsb (mkCase fans db0 cmds (model_steps (fleet_of fans) (db_of db0) cmds) x) = true.
 Proof. exact model_output_holds. Qed.
 Print Assumptions C15_model_trace_holds.
 
